@@ -16,6 +16,8 @@ import (
 
 	"github.com/q191201771/lal/pkg/base"
 
+	"verif/lib/ref"
+	"verif/lib/sw"
 	"verif/lib/vk"
 	"verif/lib/world"
 )
@@ -42,14 +44,19 @@ func returns(d time.Duration, f func()) bool {
 }
 
 func runApiCase(c apiCase) (viol string, infra error) {
-	w := world.New(world.Conf{"rtsp.enable": true, "hls.enable": true, "hls.cleanup_mode": 0})
+	conf := world.Conf{"rtsp.enable": true, "hls.enable": true, "hls.cleanup_mode": 0}
+	if c.Kind == "stalled-push-target" {
+		conf["relay_push.enable"] = true
+		conf["relay_push.addr_list"] = []interface{}{"$W-pushA:1935"}
+	}
+	w := world.New(conf)
 	stuck := false
 	defer func() {
 		if !stuck {
 			w.Close()
 		}
 	}()
-	w.EnableRelay(map[string]string{"origin": "accept"})
+	w.EnableRelay(map[string]string{"origin": "accept", "pushA": "accept"})
 	const stream = "s"
 	needPub := false
 	switch c.Kind {
@@ -64,6 +71,57 @@ func runApiCase(c apiCase) (viol string, infra error) {
 	}
 	var err error
 	custID := ""
+	if c.Kind == "stalled-push-target" {
+		// a relay-push target that stops reading while the publisher sends more than any queue holds; then
+		// the write deadline of the blocked write expires: from then on nobody may be blocked by it
+		p, e := w.RtmpPublisher("live", stream)
+		if e != nil || !p.Accepted() {
+			return "", fmt.Errorf("rtmp publisher: %v", e)
+		}
+		for i, k := range []string{"vsh", "ash", "key"} {
+			m := sw.MakeMsg(k, i, 0, 64)
+			p.SendMsgs(ref.Msg{Csid: 6, Type: m.Type, Msid: 1, Ts: 0, Payload: m.Payload})
+		}
+		if e := w.Settle(); e != nil {
+			return "", e
+		}
+		var target *world.Dial
+		for _, d := range w.LiveDials() {
+			if d.Name == "pushA" {
+				target = d
+			}
+		}
+		if target == nil {
+			return "", fmt.Errorf("the relay push did not attach")
+		}
+		target.Conn.Stall(true)
+		for i := 0; i < 1100; i++ {
+			m := sw.MakeMsg("aac", 10+i, uint32(40+i*23), 32)
+			p.SendMsgs(ref.Msg{Csid: 4, Type: 8, Msid: 1, Ts: m.Ts, Payload: m.Payload})
+		}
+		// wait until somebody is blocked on the target and the publisher's input no longer shrinks (how far the
+		// server gets before it blocks is its own business; waiting too short only makes the case weaker)
+		if !returns(90*time.Second, func() {
+			for target.Conn.BlockedWriters() == 0 {
+				time.Sleep(time.Millisecond)
+			}
+			last, since := p.Conn.Unread(), time.Now()
+			for time.Since(since) < 500*time.Millisecond {
+				time.Sleep(5 * time.Millisecond)
+				if n := p.Conn.Unread(); n != last {
+					last, since = n, time.Now()
+				}
+			}
+		}) {
+			return "", fmt.Errorf("nobody ever wrote to the stalled relay-push target")
+		}
+		target.Conn.FailWrites(os.ErrDeadlineExceeded)
+		target.Conn.Stall(false)
+		if !returns(90*time.Second, func() { err = w.Settle() }) || err != nil {
+			stuck = true
+			return fmt.Sprintf("the write deadline of the stalled relay-push target expired, but the server did not come to rest: somebody is still blocked by it (%v)", err), nil
+		}
+	}
 	switch c.Kind {
 	case "rtsp-pub":
 		_, err = w.RtspPublisher("rtsp://h/live/"+stream, apiSdpAac, []string{"streamid=0"})
@@ -108,6 +166,8 @@ func runApiCase(c apiCase) (viol string, infra error) {
 	}
 	id := ""
 	switch c.Kind {
+	case "stalled-push-target":
+		id = g.StatPub.SessionId
 	case "cust-pub":
 		id = custID // (the stat API does not list a customize publisher)
 	case "rtmp-pub", "rtsp-pub", "ps-pub":
@@ -152,7 +212,7 @@ func runApiCase(c apiCase) (viol string, infra error) {
 
 func apiCases() []apiCase {
 	var cases []apiCase
-	for _, k := range []string{"rtmp-pub", "rtsp-pub", "ps-pub", "cust-pub", "rtmp-pull", "rtsp-pull", "rtmp-sub", "flv-sub", "ts-sub", "rtsp-sub"} {
+	for _, k := range []string{"rtmp-pub", "rtsp-pub", "ps-pub", "cust-pub", "rtmp-pull", "rtsp-pull", "rtmp-sub", "flv-sub", "ts-sub", "rtsp-sub", "stalled-push-target"} {
 		for _, c := range []string{"kick", "stop-relay-pull", "stat", "tick", "start-relay-pull-again", "shutdown"} {
 			cases = append(cases, apiCase{k, c})
 		}
